@@ -193,5 +193,47 @@ fn main() {
             }
         });
     }
+    // format versions: counting rules change at version 8 (slider tick distance) and nowhere else between 5 and 14 — maps
+    // with ticked sliders under a doubled slider velocity must count alike within {5, 6, 7} and within {8, 9, 10, 14}
+    {
+        let mut opts = UniOpts::new(2);
+        opts.cfgs = vec![gen::ModeCfg { src: 0, dst: 0 }, gen::ModeCfg { src: 0, dst: 2 }, gen::ModeCfg { src: 2, dst: 2 }];
+        opts.kinds_std = vec![gen::Kind::Circle, gen::Kind::SliderLong, gen::Kind::Slider5, gen::Kind::Slider2];
+        opts.gaps = vec![150, 1000];
+        opts.poss = vec![gen::PosK::Far];
+        for timing in [gen::Timing::T1, gen::Timing::T7, gen::Timing::T0] {
+            for preset in [gen::DiffPreset::D0, gen::DiffPreset::D3] {
+                opts.timing = timing;
+                opts.diff = preset;
+                opts.tag = format!("/version-classes/{timing:?}/{preset:?}");
+                for u in opts.build() {
+                    ctx.universe(&u.name, u.total, |idx, l| {
+                        let base = u.spec(idx);
+                        l.states(1);
+                        l.nontrivial();
+                        for class in [&[5u32, 6, 7][..], &[8, 9, 10, 14][..]] {
+                            let mut first: Option<(u32, Vec<u32>, u32)> = None;
+                            for &v in class {
+                                let spec = gen::MapSpec { version: v, ..base.clone() };
+                                let map = spec.decode();
+                                let a = api::difficulty(&Difficulty::new(), &map, u.cfg.dst).expect("convertible");
+                                l.checked(1);
+                                let got = (v, counts_vec(&a), a.max_combo());
+                                match &first {
+                                    None => first = Some(got),
+                                    Some(f) => {
+                                        if (f.1.clone(), f.2) != (got.1.clone(), got.2) {
+                                            l.violation("version_class", || format!("cfg={:?}: format version {} counts {:?} / max combo {}, version {} counts {:?} / max combo {} — the counting rules do not differ between them\nspec={}\n--- .osu ---\n{}", u.cfg, f.0, f.1, f.2, got.0, got.1, got.2, spec.describe(), spec.text()));
+                                            return;
+                                        }
+                                    }
+                                }
+                            }
+                        }
+                    });
+                }
+            }
+        }
+    }
     ctx.finish();
 }
